@@ -3,7 +3,7 @@ from them so that both sides of each assertion are hit.  It only *proposes* case
 is decided by the code (check_schema) and by the specification (Meta / Accepts), what a validation must yield is
 decided by TLC."""
 
-KEYS = ["a", "b", "ab", "ba", "c", "", "a/b", "é", "~1", "x y"]
+KEYS = ["a", "b", "ab", "ba", "c", "", "a/b", "é", "~1", "x y", "%s", "{0}", "100%"]
 PATTERNS = ["a", "^a", "a$", "^a+$", "b|c", "^.$", "[0-9]", "", "^(ab)*$", "a{2,3}", "[^a]", "\\.", "x?y",
             "(?:a|b)c", "^[a-c]+$", "a.b"]
 STRINGS = ["", "a", "b", "ab", "ba", "aa", "abab", "c", "bc", "a.b", "\U0001F600", "é", "0", "9a", "x y", "aaa"]
